@@ -27,7 +27,7 @@ def generate(seed, mode="c18", opts=None):
     elaborated = False
     for i in range(n):
         k = ch.weighted(
-            [(10, "set"), (4, "add"), (3, "add_named"), (3, "get"), (1, "banned"), (1, "badval"), (1, "del"), (1, "subclass"), (1 if target == "module" and not elaborated and i > 2 else 0, "elaborate"), (1, "add_anon"), (1, "add_conflict")],
+            [(10, "set"), (4, "add"), (3, "add_named"), (3, "get"), (2, "reset"), (1, "readd"), (1, "banned"), (1, "badval"), (1, "del"), (1, "subclass"), (1 if target == "module" and not elaborated and i > 2 else 0, "elaborate"), (1, "add_anon"), (1, "add_conflict")],
             "opkind",
         )
         name = ch.pick(NAMES, "name")
@@ -41,6 +41,8 @@ def generate(seed, mode="c18", opts=None):
             ops.append(["add_named", name, kind, width])
         elif k == "get":
             ops.append(["get", ch.pick(NAMES + ["zz"], "gname")])
+        elif k in ("reset", "readd"):
+            ops.append([k, name])
         elif k == "banned":
             ops.append(["banned", ch.pick(banned, "bname"), kind, width])
         elif k == "badval":
@@ -200,6 +202,16 @@ def execute(scn):
                 elif name in model:
                     probe("name_reused_same_kind")
                 model[name] = (vk, val)
+            elif kind in ("reset", "readd"):
+                # the object a name already holds is assigned / added to that very name again
+                if elaborated or op[1] not in model:
+                    continue
+                cur = model[op[1]][1]
+                if kind == "reset":
+                    setattr(obj, op[1], cur)
+                else:
+                    obj.add(cur)
+                probe("idempotent_reassignment")
             elif kind == "get":
                 got = obj.get(op[1])
                 if not elaborated:
@@ -236,7 +248,7 @@ def execute(scn):
                 obj.add(val, name=op[2])
                 fail("conflict-accepted", f"op {k}: add() with two names was accepted")
         except Exception as e:  # noqa
-            if kind in ("set", "add", "add_named", "get", "elaborate") and not expect_reject:
+            if kind in ("set", "add", "add_named", "get", "elaborate", "reset", "readd") and not expect_reject:
                 if kind == "elaborate":
                     res["discard"] = f"elaborate failed: {interp.norm_exc(e)}"
                     return res
